@@ -45,6 +45,18 @@ def jobs(tier):
             for pre in (["false_region"], ["aborted_region"], ["self_first"]):
                 js.append(dict(name="%s/n4/guard-after-%s" % (e.name, pre[0]), entry=e.name, backend="snarkjs",
                                cfg=dict(n=4, r=2, guard="sym", bound=(1 << 64), prelude=pre), tier=tier, weight=3))
+            for pre in (["false_region"], ["true_region"], ["aborted_region"]):
+                js.append(dict(name="%s/n4/guard-inside-after-%s" % (e.name, pre[0]), entry=e.name, backend="snarkjs",
+                               cfg=dict(n=4, r=2, guard="sym", bound=(1 << 64), inner_prelude=pre), tier=tier, weight=3))
+    # regions of the block API and lazy if_then_else: what a region whose condition is false writes (scalars, list
+    # cells, cells of nested lists) does not survive it, the run completes, and the witness satisfies the system
+    from . import cat_c09
+    for e in cat_c09.build(8, tier):
+        if e.tags & {"if_only", "nestedop", "matrix", "lazy", "nested"}:
+            base = dict(entry=e.name, backend="snarkjs", tier=tier, pid=PID, catalogue="checks.cat_c09", weight=2)
+            cfg = dict(n=8, r=2, guard=None, bound=None)
+            js.append(dict(base, name="%s/region-value" % e.name, analysis="obs", cfg=dict(cfg)))
+            js.append(dict(base, name="%s/region-witness" % e.name, analysis="witness", cfg=dict(cfg)))
     return js
 
 
@@ -61,6 +73,12 @@ def leaf_vals(t):
 
 
 def run_job(env, spec):
+    if spec.get("analysis") == "obs":
+        from .obsjob import run_obs_job
+        return run_obs_job(PID, env, spec, lookup(spec), "checks.cat_c09")
+    if spec.get("analysis") == "witness":
+        from . import c01
+        return c01.run_job(env, spec)
     entry = lookup(spec)
     job = Job(spec.get("pid", PID), env, spec, entry, spec.get("catalogue", "checks.catalogue"))
     job.cfg["want_ref"] = False
@@ -73,7 +91,7 @@ def run_job(env, spec):
     # plain twin (unguarded), separate skolem namespace
     E.ENG.name_prefix = "U_"
     jobU = Job(spec.get("pid", PID), env, spec, entry, spec.get("catalogue", "checks.catalogue"))
-    jobU.cfg.update(guard=None, want_ref=False, prelude=None)     # the reference run has no history
+    jobU.cfg.update(guard=None, want_ref=False, prelude=None, inner_prelude=None)     # the reference run has no history
     tracesU = jobU.explore()
     E.ENG.name_prefix = ""
     job.res["paths"] += jobU.res["paths"]
@@ -222,10 +240,13 @@ def main(argv):
     tier = C.tier()
     rep = C.Report(PID)
     rep.functions |= {"pysnark.runtime.guarded/add_guard/restore_guard/is_guard/add_constraint (guarded form with dummy)",
-                      "all catalogue operations executed inside guarded(g)"}
+                      "all catalogue operations executed inside guarded(g)",
+                      "pysnark.branching: _if/_else/_endif regions, BranchingValues backup/merge and lazy if_then_else on the "
+                      "if_only/nested/nestedop/matrix/lazy programs of the C09 catalogue (false-condition writes do not survive)"}
     rep.bounds = dict(bitlength=[4] if tier == "quick" else [4, 8], guard_nesting=2, guard_values="0/1",
                       operand_magnitude="< 2^64" if tier == "quick" else "< 2^120")
-    rep.assumptions = ["only runtime.guarded/add_guard with a plain secret are exercised here; the block API is C09",
+    rep.assumptions = ["the operator catalogue runs under runtime.guarded with a plain secret; block-API regions are exercised on the "
+                       "C09 programs listed under functions (the full block API is C09)",
                        "operations whose unguarded form is a recorded C02 finding are exempt from the soundness-under-true-guard clause"]
     js = jobs(tier)
     if argv:
